@@ -6,3 +6,11 @@ from .speclib import *
 from . import speclib
 from .externals import external, EXT
 from .engine import Unsupported, PyRaise, Ref, Opaque, z3_int
+from .rt import ObjSpec
+
+
+def obj(cls, **fields):
+    """concrete object description for witnesses / replays"""
+    return ObjSpec(cls, fields)
+from .gen import TSmallInt
+SMALL = TSmallInt()
